@@ -7,7 +7,7 @@
 namespace c11 {
 
 // constructFrom(numNodes, numEdges, prefix_sum, edges_id, edges_data)
-template <class G, class F, bool Pod>
+template <class G, class F, bool Pod, bool Reuse = false>
 void opVectors(Ctx& c) {
   using E    = typename G::edge_data_type;
   uint64_t N = c.X.numNodes, m = c.X.numEdges();
@@ -31,7 +31,7 @@ void opVectors(Ctx& c) {
   if constexpr (Pod) {
     g.constructFrom((uint32_t)N, m, prefix, pods, data);
   } else {
-    if (c.rng.below(2)) {
+    if (Reuse) {
       // "Deallocate if reusing the graph": build something else first
       std::vector<uint64_t> p2{1, 2, 2};
       std::vector<std::vector<uint32_t>> i2{{1}, {2}, {}};
@@ -93,8 +93,10 @@ void regCsr(const std::string& cfg, unsigned ops) {
       e.flags &= ~(unsigned)F_FLOAT;
       R.push_back(e);
     }
-    if (ops & O_VECTORS)
+    if (ops & O_VECTORS) {
       R.push_back(mkEntry<E>(F::name, cfg, "constructFrom-vectors", &opVectors<G, F, false>));
+      R.push_back(mkEntry<E>(F::name, cfg, "constructFrom-vectors-reuse", &opVectors<G, F, false, true>));
+    }
     if (ops & O_PODVEC)
       R.push_back(mkEntry<E>(F::name, cfg, "constructFrom-podvectors", &opVectors<G, F, true>));
     if (ops & O_SORTDATA)
